@@ -127,7 +127,7 @@ class Scenario:
     def model_args(self):
         i = {"file": "path", "stdin": "stdin", "missing": "missing"}[self.in_kind]
         o = {"inplace": "same", "out": "other", "dir": "other", "dirsame": "same", "stdout": "stdout", "pretend": "none", "implicit": "same",
-             "dirrel": "other", "outrel": "other"}[self.route]
+             "dirrel": "other", "outrel": "other", "pretendout": "none", "pretenddir": "none", "outcase": "other"}[self.route]
         return i, o, "1" if self.preserve and self.route in ("inplace", "out", "dir") else "0", {"improvable": "improved", "optimal": "same", "invalid": "err"}[self.cls]
 
 
@@ -166,6 +166,13 @@ SCENARIOS = [
     Scenario("dirrel-improvable", "file", "dirrel", False, "improvable"),
     Scenario("outrel-optimal", "file", "outrel", False, "optimal"),
     Scenario("outrel-improvable", "file", "outrel", False, "improvable"),
+    # --pretend wins over a named destination: nothing may be created there
+    Scenario("pretendout-improvable", "file", "pretendout", False, "improvable"),
+    Scenario("pretendout-optimal", "file", "pretendout", False, "optimal"),
+    Scenario("pretenddir-improvable", "file", "pretenddir", False, "improvable"),
+    # a destination whose name differs from the input's only in letter case is a DIFFERENT file here
+    Scenario("outcase-optimal", "file", "outcase", False, "optimal"),
+    Scenario("outcase-improvable", "file", "outcase", False, "improvable"),
 ]
 
 
@@ -219,12 +226,20 @@ class Sandbox:
             self.stdout_path = os.path.join(self.d, "stdout.bin")
         elif sc.route == "pretend":
             argv += ["--pretend"]
+        elif sc.route == "pretendout":
+            argv += ["--pretend", "--out", os.path.join(self.d, "out.png")] if idx % 2 else ["--out", os.path.join(self.d, "out.png"), "--pretend"]
+        elif sc.route == "pretenddir":
+            argv += ["--pretend", "--dir", os.path.join(self.d, "sub")]
+        elif sc.route == "outcase":
+            self.cwd = self.d
+            self.outp = os.path.join(self.d, "IN.PNG")
+            argv += ["--out", "IN.PNG"]
         if sc.preserve and sc.route in ("inplace", "out", "dir"):
             argv += ["--preserve"]
         if sc.existing_dest:
             open(self.outp, "wb").write(b"previous content of the destination, longer than any result " * 700)
             os.chmod(self.outp, 0o600)
-        argv.append(("imgs/in.png" if sc.route == "dirsame" else "in.png" if sc.route in ("dirrel", "outrel") else self.inp) if sc.in_kind != "stdin" else "-")
+        argv.append(("imgs/in.png" if sc.route == "dirsame" else "in.png" if sc.route in ("dirrel", "outrel", "outcase") else self.inp) if sc.in_kind != "stdin" else "-")
         self.argv = argv
         if self.stdout_path:
             open(self.stdout_path, "wb").close()
@@ -322,7 +337,7 @@ def run(rep):
                 # decide whether the difference breaks the property: a write-phase call before the read phase is complete, or on a failed computation
                 first_w = next((i for i, o in enumerate(got_ops) if o.startswith(("create", "openw", "write", "wstdout", "chmod", "utimes", "other"))), None)
                 last_r = max((i for i, o in enumerate(got_ops) if o in ("read", "readstdin", "open")), default=-1)
-                if first_w is not None and (first_w < last_r or sc.cls == "invalid" or sc.route == "pretend" or (sc.cls == "optimal" and sc.route in ("inplace", "dirsame"))):
+                if first_w is not None and (first_w < last_r or sc.cls == "invalid" or sc.route.startswith("pretend") or (sc.cls == "optimal" and sc.route in ("inplace", "dirsame"))):
                     rep.violation("C12:write-before-result:" + sc.name, f"{sc.name}: the process performs {got_ops}; a destination is opened/written although "
                                   f"the result is not (or never) complete; the model's plan is {model_ops(','.join(mtrace))}", {**desc, "impl_ops": got_ops})
                 else:
@@ -334,7 +349,7 @@ def run(rep):
             aft = sb.after()
             want = want_of[sc.cls]
             # final state
-            if mresult == "ok" and sc.route in ("out", "dir", "inplace", "dirsame", "dirrel", "outrel"):
+            if mresult == "ok" and sc.route in ("out", "dir", "inplace", "dirsame", "dirrel", "outrel", "outcase"):
                 rel = os.path.relpath(sb.outp, sb.d)
                 exp = data if sc.cls == "optimal" else want
                 if sc.cls == "optimal" and sc.route in ("inplace", "dirsame"):
@@ -457,7 +472,7 @@ def run(rep):
                 wrote = any(o.startswith(("create", "write", "wstdout", "chmod", "utimes")) for o in ops2)
                 aft = sb.after()
                 ch = changed(sb.before, aft, ignore=("sub/",))
-                if died and ch and (not wrote or sc.cls == "invalid" or sc.route == "pretend"):
+                if died and ch and (not wrote or sc.cls == "invalid" or sc.route.startswith("pretend")):
                     rep.violation("C12:changed-by-crash:" + sc.name, f"{sc.name}: killed at the {k}-th {nm} call (before any write-phase call) and {ch} differ from before the run",
                                   {**desc, "kill_at": [nm, k]})
                 shutil.rmtree(sb.d, ignore_errors=True)
